@@ -94,7 +94,9 @@ static void apply_meta (SNDFILE *s, META *me, int order_seed)
 	for (i = 0 ; i < K_N ; i++) ord [i] = i ;
 	{	uint64_t sv = vh_rs ; vh_srand (order_seed) ; for (i = K_N - 1 ; i > 0 ; i--) { j = vh_rint (i + 1) ; t = ord [i] ; ord [i] = ord [j] ; ord [j] = t ; } vh_rs = sv ; }
 	for (i = 0 ; i < K_N ; i++) if (me->set [ord [i]]) switch (ord [i])
-	{	case K_STR : for (t = SF_STR_FIRST ; t <= SF_STR_LAST ; t++) if (me->strset [t]) me->strrc [t] = sf_set_string (s, t, me->str [t]) ; break ;
+	{	case K_STR : { int ord [SF_STR_LAST + 2], n = 0, j ; for (t = SF_STR_FIRST ; t <= SF_STR_LAST ; t++) ord [n++] = t ;
+			for (j = n - 1 ; j > 0 ; j--) { int x = vh_rint (j + 1), tmp = ord [j] ; ord [j] = ord [x] ; ord [x] = tmp ; }		/* strings are set in a shuffled order */
+			for (j = 0 ; j < n ; j++) if (me->strset [ord [j]]) me->strrc [ord [j]] = sf_set_string (s, ord [j], me->str [ord [j]]) ; } break ;
 		case K_BEXT : me->setrc [K_BEXT] = sf_command (s, SFC_SET_BROADCAST_INFO, &me->bext, me->bext_size) ; break ;		/* SF_TRUE on success */
 		case K_CART : me->setrc [K_CART] = sf_command (s, SFC_SET_CART_INFO, &me->cart, me->cart_size) ; break ;
 		case K_CUE : me->setrc [K_CUE] = sf_command (s, SFC_SET_CUE, &me->cues, sizeof (me->cues)) ; break ;
@@ -120,6 +122,11 @@ static void check_meta (SNDFILE *r, META *me, const char *fn, const char *q, int
 		if (t == SF_STR_SOFTWARE && strlen (me->str [t]) > 64) continue ;		/* long software strings are truncated by an undocumented staging buffer: observed only */
 		if (g == NULL) vh_viol (vh_key ("C12|string-lost|type%d|%s%s", t, fn, q), "string type %d of %zu bytes set (rc 0) but absent after re-open", t, strlen (me->str [t])) ;
 		else if (strcmp (g, want)) vh_viol (vh_key ("C12|string-changed|type%d|%s%s%s", t, fn, q, strpbrk (want, "\xc3\xe2") ? "|non-ascii" : ""), "string type %d: set %zu bytes '%.40s...', got %zu bytes '%.40s...'", t, strlen (want), want, strlen (g), g) ;
+		}
+	/* strings that were never set must not appear (the library adds SF_STR_SOFTWARE itself) */
+	if (!(late_mask & (1 << K_STR))) for (t = SF_STR_FIRST ; t <= SF_STR_LAST ; t++) if (!(me->set [K_STR] && me->strset [t]) && t != SF_STR_SOFTWARE)
+	{	const char *g = sf_get_string (r, t) ; vh_stat ("absent_strings_checked", 1) ;
+		if (g != NULL) vh_viol (vh_key ("C12|string-appeared|type%d|%s%s", t, fn, q), "string type %d was never set but reads back as '%.60s' after re-open", t, g) ;
 		}
 	if (me->set [K_BEXT] && expect_stored && in_matrix (maj, K_BEXT, 0))
 	{	static SF_BROADCAST_INFO_VAR (17000) g ; int rc ; memset (&g, 0, sizeof (g)) ; rc = sf_command (r, SFC_GET_BROADCAST_INFO, &g, sizeof (g)) ; vh_stat ("bext_checked", 1) ;
